@@ -294,6 +294,13 @@ func selftest() int {
 			bad++
 		}
 	}
+	for _, f := range append(append([]string{}, c07Positions...), c10Starts...) {
+		b, err := rc.ParseFEN(f)
+		if err != nil || b.Validate() != nil || !epConsistent(b) || !castleConsistent(b) {
+			fmt.Fprintln(realStdout, "selftest: invalid extra position", f)
+			bad++
+		}
+	}
 	perft := []struct {
 		fen string
 		d   int
